@@ -26,15 +26,19 @@ TOL = 1e-9
 P_DATA = [0.1, 0.2, 0.4, 0.8, 1.6]
 L_DATA = [1.0, 1.8, 2.9, 3.7, 4.1]
 ACCESSORS = ["p.pressure", "p.loading", "p.loading_at", "p.pressure_at", "p.spreading_pressure_at",
-             "m.pressure", "m.loading", "m.loading_at", "m.pressure_at", "m.spreading_pressure_at"]
+             "m.pressure", "m.loading", "m.loading_at", "m.pressure_at", "m.spreading_pressure_at",
+             "v.pressure", "v.loading", "v.pressure_at"]
 IN_P = {"p.loading_at", "m.loading_at", "p.spreading_pressure_at", "m.spreading_pressure_at"}
-IN_L = {"p.pressure_at", "m.pressure_at"}
+IN_L = {"p.pressure_at", "m.pressure_at", "v.pressure_at"}
 
 
-def make_model(s, fix):
+def make_model(s, fix, virial=False):
     import pygaps
     from pygaps.modelling import get_isotherm_model
-    m = get_isotherm_model("Langmuir", parameters={"K": 1.7, "n_m": 5.3}, pressure_range=(0.05, 2.0), loading_range=(0.3, 4.2))
+    if virial:      # a pressure-calculating model: ModelIsotherm.pressure()/loading() take their other code path
+        m = get_isotherm_model("Virial", parameters={"K": 2.3, "A": 0.11, "B": 0.02, "C": 0.001}, pressure_range=(0.05, 2.0), loading_range=(0.3, 4.2))
+    else:
+        m = get_isotherm_model("Langmuir", parameters={"K": 1.7, "n_m": 5.3}, pressure_range=(0.05, 2.0), loading_range=(0.3, 4.2))
     kw = py_labels(s)
     t = fix.temp if kw["temperature_unit"] == "K" else fix.temp - 273.15
     return pygaps.ModelIsotherm(model=m, material=fix.mat.name, adsorbate=fix.ads.name, temperature=t, **kw)
@@ -43,7 +47,12 @@ def make_model(s, fix):
 def make_iso(acc, s, fix):
     if acc.startswith("p."):
         return make_point(s, fix.ads, fix.mat, fix.temp, P_DATA, L_DATA, branch=[0] * len(P_DATA))
-    return make_model(s, fix)
+    return make_model(s, fix, virial=acc.startswith("v."))
+
+
+def spec_acc(acc):
+    """v.* = the same ModelIsotherm accessors exercised on a pressure-calculating (Virial) model"""
+    return "m." + acc[2:] if acc.startswith("v.") else acc
 
 
 def d(x):
@@ -53,8 +62,8 @@ def d(x):
 def kwargs_of(g, acc):
     kw = {}
     name = {"pm": "pressure_mode", "pu": "pressure_unit", "lb": "loading_basis", "lu": "loading_unit", "mb": "material_basis", "mu": "material_unit"}
-    takes_p = acc in ("p.pressure", "m.pressure") or acc.endswith("_at")
-    takes_l = acc in ("p.loading", "m.loading") or acc in ("p.loading_at", "m.loading_at", "p.pressure_at", "m.pressure_at", "p.spreading_pressure_at")
+    takes_p = acc.endswith(".pressure") or acc.endswith("_at")
+    takes_l = acc.endswith(".loading") or acc in ("p.loading_at", "m.loading_at", "p.pressure_at", "m.pressure_at", "v.pressure_at", "p.spreading_pressure_at")
     for k, v in g.items():
         if v == "none":
             continue
@@ -69,7 +78,7 @@ def kwargs_of(g, acc):
 def call(acc, iso, x, kw):
     m = acc.split(".")[1]
     if m in ("pressure", "loading"):
-        if acc.startswith("m."):
+        if not acc.startswith("p."):
             return getattr(iso, m)(7, **kw)
         return getattr(iso, m)(**kw)
     return getattr(iso, m)(x, **kw)
@@ -120,18 +129,18 @@ def main(tier, seed):
         for si, s in enumerate(stored):
             fix = fx[si % 2]
             is_p_state = si < 10
-            if acc in ("p.pressure", "m.pressure") or is_p_state:
+            if acc.endswith(".pressure") or is_p_state:
                 gs = args_p if (acc.endswith("pressure") or acc.endswith("_at")) else []
             else:
                 gs = []
-            if not is_p_state and acc not in ("p.pressure", "m.pressure", "m.spreading_pressure_at"):
+            if not is_p_state and not acc.endswith(".pressure") and acc != "m.spreading_pressure_at":
                 allg = args_lm_for(s)
                 rng.shuffle(allg)
                 gs = gs + allg[:per_state]
             for g in gs:
                 if kwargs_of(g, acc) is not None:
                     calls.append((acc, s, g, fix))
-    recs = [{"acc": a, "s": s, "g": g, "av": f.avail} for a, s, g, f in calls]
+    recs = [{"acc": spec_acc(a), "s": s, "g": g, "av": f.avail} for a, s, g, f in calls]
     answers = tlc.oracle("IsoAccessOracle", recs, timeout=1800, chunk=20000)
 
     natives = {}
@@ -191,6 +200,19 @@ def main(tier, seed):
             for fout in vouts:
                 if nat.shape == out.shape and numpy.allclose(out, nat * fout, rtol=TOL, atol=0):
                     ok = True
+        if ok and acc in ("p.pressure", "p.loading") and ans["must"] and nontrivial and out.size >= 4:
+            # a slice between limits, the limits being in the REQUESTED representation
+            srt = numpy.sort(out)
+            lo, hi = 0.5 * (srt[0] + srt[1]), 0.5 * (srt[2] + srt[3])
+            want = [float(v) for v in out if lo < v < hi]
+            try:
+                got_lim = [float(v) for v in call(acc, iso, None, {**kw, "limits": (lo, hi)})]
+            except Exception as e:
+                got_lim = "exception:" + exc_class(e)
+            run.count((acc, "limits", tuple(sorted(s.items())), tuple(sorted(g.items()))))
+            if got_lim != want:
+                run.violation({**sig0, "observed": "limits are not applied to the values in the requested representation"},
+                              {**detail, "limits": [lo, hi], "returned": got_lim, "expected": want})
         if ok:
             # double oracle: the literal experiment of the property (point isotherms, fully named target)
             if acc.startswith("p.") and ans["must"] and rng.random() < (1.0 if thorough else 0.3):
